@@ -256,6 +256,17 @@ where
         }
     }
 
+    /// Verification hook: total number of bytes produced so far (delivered or
+    /// still in the window); `None` before the header is complete or after an
+    /// error.
+    #[doc(hidden)]
+    pub fn verif_produced(&self) -> Option<usize> {
+        match &self.state {
+            Some(State::Data(state)) => Some(state.output.len()),
+            _ => None,
+        }
+    }
+
     /// Verification hook: bytes of history currently buffered by the window.
     #[doc(hidden)]
     pub fn verif_window_buf_len(&self) -> usize {
